@@ -42,6 +42,7 @@ def tagNRB {α : Type} (prov : α → Prov Unit) (c : Conn α) (p : α) (ctx : O
   | .inReq _ req post => ctx == some req && bornIs c req post
   | .detached _ => ctx == none
   | .server => ctx == none
+  | .fanout _ _ _ _ => ctx == none
   | _ => false
 
 def wellTaggedWB {α : Type} (prov : α → Prov Unit) (c : Conn α) : Msg α → Option Nat → Bool
@@ -68,6 +69,7 @@ theorem tagNR_of_b {α : Type} {prov : α → Prov Unit} {c : Conn α} {p : α} 
     exact ⟨by first | rfl | trivial, h.1, bornIs_spec h.2⟩
   · rename_i hp; rw [hp]; exact ⟨by first | rfl | trivial, by simpa using h⟩
   · rename_i hp; rw [hp]; exact Or.inl (by simpa using h)
+  · rename_i hp; rw [hp]; simpa using h
   · cases h
 
 theorem wellTaggedW_of_b {α : Type} {prov : α → Prov Unit} {c : Conn α} {msg : Msg α} {ctx : Option Nat}
